@@ -221,6 +221,7 @@ theorem readAnySome_no_panic : ∀ (a : Arr) (idx : Nat), NoPanic (readAnySome F
       rw [hs] at h
       cases e with
       | err m => cases h
+      | errCtx m a => cases h
       | panic p => exact unionSelect_no_panic _ _ _ _ p hs
     | ok r =>
       obtain ⟨k, off⟩ := r
@@ -355,6 +356,7 @@ theorem readAs_no_panic : ∀ (t : Target) (a : Arr) (idx : Nat), NoPanic (readA
         rw [hs] at h
         cases e with
         | err m => cases h
+        | errCtx m a => cases h
         | panic p => exact unionSelect_no_panic _ _ _ _ p hs
       | ok r =>
         obtain ⟨k, off⟩ := r
